@@ -378,6 +378,9 @@ func dischargeAll(dir string, items []oblItem, timeoutS int, waitAll bool) {
 	// cannot turn a proof that takes a few seconds into an alarm. At most eight retries, two at a time.
 	var retry []int
 	for i := range items {
+		if os.Getenv("GOVC_NORETRY") != "" {
+			break // must-fail corpus runs: one failing obligation is enough, do not spend the retry budget
+		}
 		o := items[i].o
 		if o.Status == "undischarged" && o.Expect != "sat" && strings.Contains(o.Output, " timeout ") && !strings.Contains(o.Output, " unknown ") && len(retry) < 8 {
 			retry = append(retry, i)
